@@ -47,6 +47,12 @@ def objective(desc):
     if k == 'const':
         c = desc.get('c', 0.0)
         return lambda y: float(c)
+    if k == 'scaled':  # another objective multiplied by a huge (or tiny) finite factor
+        g = objective(desc['of']); c = desc['factor']
+        return lambda y: float(g(y)) * c
+    if k == 'bigint':  # values are python ints beyond 2^53 (wider than a double): 10^18 + round(1000 * g(y))
+        g = objective(desc['of']); base = int(desc.get('base', 10 ** 18)); mult = desc.get('mult', 1000)
+        return lambda y: base + int(round(mult * float(g(y))))
     if k == 'gkls':  # a shipped GKLS function (many local minima, box [-1, 1]^dim)
         import numpy as np
         from iOpt.problems.GKLS import GKLS
@@ -138,7 +144,7 @@ def cones_in_box(rng, n, lo, hi, k=3, smax=4.0):
 # ------------------------------------------------------------------------------------------------
 # Problem wrapper
 # ------------------------------------------------------------------------------------------------
-def make_problem(n, lo, hi, desc, fail_at=None, exc='RuntimeError', answers=None, fail_region=None, returns_new_holder=False, discrete=0):
+def make_problem(n, lo, hi, desc, fail_at=None, exc='RuntimeError', answers=None, fail_region=None, returns_new_holder=False, discrete=0, inf_region=None):
     """A Problem whose Calculate logs (point, value) and can raise at call number fail_at (1-based)."""
     from iOpt.problem import Problem
 
@@ -177,6 +183,10 @@ def make_problem(n, lo, hi, desc, fail_at=None, exc='RuntimeError', answers=None
                 self.answers.append(('raise',))
                 raise excs[exc]('objective undefined at %r' % (y,))
             v = f(y)
+            if inf_region is not None and inf_region[1] <= y[inf_region[0]] <= inf_region[2]:      # +inf marks an infeasible slab of the box
+                self.answers.append(('inf',))      # not a trial: the library rejects non-finite values
+                functionValue.value = float('inf')
+                return functionValue
             self.log.append((y, v))
             self.answers.append(('v', v))
             if returns_new_holder:      # a functional-style problem: fills and returns a NEW FunctionValue (the signature allows it)
@@ -196,11 +206,17 @@ def make_solver(problem, r=2.0, eps=0.01, iters=1000, density=None, refine=False
     kw = dict(eps=eps, r=r, itersLimit=iters, refineSolution=refine)
     if density is not None:
         kw['evolventDensity'] = density      # may be a python int or a numpy integer scalar (a value taken from an array of settings)
+    assign_density = None
+    if isinstance(density, tuple) and density[0] == 'assign':      # parameters built with the default density, the field assigned afterwards
+        assign_density = density[1]; kw.pop('evolventDensity', None)
     if start is not None:      # the documented startPoint parameter (a user's guess of the solution)
         import numpy as np
         from iOpt.trial import Point
         kw['startPoint'] = Point(np.array(start, dtype=np.double), [])
-    return Solver(problem, parameters=SolverParameters(**kw))
+    params = SolverParameters(**kw)
+    if assign_density is not None:
+        params.evolventDensity = assign_density
+    return Solver(problem, parameters=params)
 
 
 def random_start(rng, lo, hi):
